@@ -26,6 +26,8 @@ def mon_closed(tr, sc):
                     out.append(("after-close:not-errclosed", "%s after Close returned `%s`" % (f[2], p[2])))
                 if l.startswith("pub ok") or (l.startswith("pub err ") and p[2] not in ("closed", "deny", "max")):
                     out.append(("after-close:publish", "persisted publish after Close and ReadSlices' ErrClosed: `%s`" % l)) if rs_closed else None
+                if l.startswith(("rs msg", "rs big")) and not rs_closed:
+                    continue     # received before the Close and still in the read buffer: handed over, nothing blocks ("ErrClosed instead of blocking")
                 if l.startswith("rs ") and not l.startswith("rs err closed") and not l.startswith("rs err store"):
                     out.append(("after-close:readslices", "ReadSlices after Close returned `%s`" % l))
                 if l.startswith("rs err closed"):
